@@ -3,6 +3,7 @@ package main
 // C10: transaction filtering and block scans.
 
 import (
+	"math"
 	"sort"
 	"time"
 
@@ -251,6 +252,12 @@ func filterItems(a Event, txs []*wire.MsgTx) [][]byte {
 			items = append(items, append(b, byte(idx), byte(idx>>8), byte(idx>>16), byte(idx>>24)))
 		case "sig":
 			items = append(items, poolItem(gInt(m, "k"))[:8])
+		case "extout": // the outpoint spent by an input without an in-block parent (same synthetic hash as buildTxs)
+			salt := gInt(a, "salt")
+			b := []byte{0xEE, byte(salt), byte(salt >> 8), byte(gInt(m, "ext")), byte(gInt(m, "i"))}
+			b = append(b, make([]byte, 27)...)
+			idx := uint32(gInt(m, "o"))
+			items = append(items, append(b, byte(idx), byte(idx>>8), byte(idx>>16), byte(idx>>24)))
 		}
 	}
 	return items
@@ -491,6 +498,18 @@ func runC10(c *Ctx) {
 			c.Call(Event{"op": "ScanBlock", "desc": desc, "order": ord, "fitems": []interface{}{map[string]interface{}{"t": "item", "k": 0, "kind": kind}},
 				"salt": salt, "flags": fl, "nbytes": 4096, "nhash": 3, "tweak": w32(uint32(k)), "src": "twins"})
 		}
+	}
+	// spent outpoints at the index boundaries (0xffffffff is only "null" together with the zero hash)
+	for k, idx := range []uint32{0, 1, 255, 256, 65535, 65536, 1 << 24, 1 << 31, math.MaxUint32 - 1, math.MaxUint32} {
+		desc := []interface{}{map[string]interface{}{"outs": []interface{}{map[string]interface{}{"kind": "push", "item": 2, "item2": 2}},
+			"ins": []interface{}{map[string]interface{}{"parent": -1, "out": int64(idx), "sig": -1, "ext": 9}}}}
+		salt := 3100 + k
+		prev := append([]byte{0xEE, byte(salt), byte(salt >> 8), 9, 0}, make([]byte, 27)...)
+		c.Run([]Event{loadCall(c, "LoadFilter", 512, 1+k%4, randTweak(c, k), k%3, true),
+			{"op": "AddOutPoint", "txid": ints(prev), "idx": w32(idx)},
+			{"op": "MatchTx", "desc": desc, "salt": salt}})
+		c.Call(Event{"op": "ScanBlock", "desc": desc, "order": []int{0}, "fitems": []interface{}{map[string]interface{}{"t": "extout", "i": 0, "ext": 9, "o": int64(idx)}},
+			"salt": salt, "flags": k % 3, "nbytes": 4096, "nhash": 3, "tweak": w32(uint32(k)), "src": "extout"})
 	}
 	// a filter that is queried while its bit array is still empty and then receives a populated message through Reload
 	for k := 0; k < c.Pick(12, 120); k++ {
